@@ -55,7 +55,7 @@ func init() {
 			"the sent set is retried before the buffered messages of the same partition and the bounce state (currentRetries / closing) is set on the same path (C02.sent-before-buffered); parked buffers are flushed in index order and cleared, and highWatermark is written only by newHighWatermark/flushRetryBuffers (C02.flush); " +
 			"one produce request in flight per broker worker: unbuffered bridge, synchronous Produce, tabled senders on brokerProducer.output (C02.single-flight); the retry queue is used strictly FIFO (C02.fifo). " +
 			"NOT covered: the interleaving argument itself, reordering with Retry.Max=0 / abandoned brokers (value- and schedule-dependent).",
-		Rules: []func(*Ctx){c02RouteOnce, c02SentBeforeBuffered, c02Recheck, c02Flush, c02RetryStateKept, c02SingleFlight, c02Fifo, c01ErrLost, c02RetryLevelWidth},
+		Rules: []func(*Ctx){c02RouteOnce, c02SentBeforeBuffered, c02Recheck, c02Flush, c02RetryStateKept, c02SingleFlight, c02Fifo, c01ErrLost, c02RetryLevelWidth, c02MarkerCreators},
 	})
 }
 
@@ -585,7 +585,35 @@ func c02Recheck(c *Ctx) {
 			r2 := *reg.From(h.After())
 			pr := clear(ParamN(1), h.Instr())
 			r2.Cut = func(from, to *ssa.BasicBlock) bool { return Establishes(from, to, pr) }
-			it, path := r2.Reach(ReturnNilErr(), nil)
+			// any return that is not the verdict of a needsRetry(msg) made after the response — `return nil`, but also
+			// `return bp.closing`, which forgets the per-partition half of the verdict
+			hInstr := h.Instr()
+			verdict := func(v ssa.Value) bool {
+				v = throughCell(v)
+				cl, ok := v.(*ssa.Call)
+				return ok && p.CalleeName(&cl.Call) == "brokerProducer.needsRetry" && instrDominates(hInstr, cl)
+			}
+			notVerdict := func(it Item) bool {
+				ret, ok := it.In.(*ssa.Return)
+				if !ok || IsRecoverBlock(ret.Block()) {
+					return false
+				}
+				rv := RetVals(ret)
+				if len(rv) != 1 || verdict(rv[0]) {
+					return false
+				}
+				// an error known to be non-nil where it is returned (`if bp.closing != nil { return bp.closing }`, the
+				// helper written out) refuses the message: fine
+				if !IsNil()(rv[0]) {
+					v := rv[0]
+					same := func(w ssa.Value) bool { return samePath(w, v) || samePath(throughCell(w), throughCell(v)) }
+					if g, _ := reg.Guarded(Item{In: ret}, Cmp{token.NEQ, same, IsNil()}); g {
+						return false
+					}
+				}
+				return true
+			}
+			it, path := r2.Reach(notVerdict, nil)
 			c.Check(it.IsZero(), rule, fn, "recheck-after-response", h.Instr(), "after handling a response the waiting message is re-checked with needsRetry(msg) before it is let through",
 				"waitForSpace can return nil after handling a response without re-checking needsRetry(msg) (which includes the per-partition bounce state): the parked message is buffered and sent ahead of the earlier messages of its partition that are still on the retry path", path)
 		}
